@@ -103,7 +103,11 @@ func authSeq(tr *hx.Trace, rng *rand.Rand, beh []op) {
 			var buf bytes.Buffer
 			w := shadowsocks.NewWriter(&buf, keys[x.key])
 			w.SetSaltGenerator(fixedSalt(x.salt))
-			w.Write(append([]byte(socks.ParseAddr("192.0.2.1:80")), []byte("hello")...))
+			// every presentation of a handshake carries different bytes after the authenticated header (salt + encrypted
+			// length): a replay is a replay whatever follows
+			tail := make([]byte, 8+rng.Intn(40))
+			rng.Read(tail)
+			w.Write(append(append([]byte(socks.ParseAddr("192.0.2.1:80")), []byte("hello")...), tail...))
 			port++
 			id, inner, cerr := auth(&memConn{r: bytes.NewReader(buf.Bytes()), remote: &net.TCPAddr{IP: net.IPv4(127, 0, 0, 1), Port: port}})
 			switch {
